@@ -48,7 +48,7 @@ def validator_for(vm):
 def conc(vm, x):
     """abstract item -> python object"""
     if vm == "id" or x in VALID:
-        return x
+        return x                   # (under "once" the int itself: that validator rejects it, as the specification says)
     if x in (11, 12, 13):
         return str(x - 10)
     return "bad"
@@ -145,28 +145,67 @@ def _coerce_validator(x):
     raise TraitError("invalid item %r" % (x,))
 
 
+def _once_validator(x):
+    """not idempotent: converts a digit string, rejects everything else (its own results included)"""
+    from traits.trait_errors import TraitError
+    if type(x) is str and x.isdigit():
+        return int(x)
+    raise TraitError("invalid item %r" % (x,))
+
+
+def _validator(vm):
+    return {"coerce": _coerce_validator, "once": _once_validator}.get(vm)
+
+
+def _raw(vm, x):
+    """the form in which a valid item is HANDED to the list so that it ends up stored as x"""
+    return str(x) if vm == "once" and type(x) is int and x in VALID else x
+
+
+_owners = {}
+
+
+def _list_owner(vm):
+    """HasTraits class with l = List(item trait validating like the TraitList validator of vm): its value is a
+    TraitListObject, the subclass of TraitList the List trait uses"""
+    if vm not in _owners:
+        from traits.api import Any, HasTraits, List, TraitType
+        fn = _validator(vm)
+
+        class Item(TraitType):
+            def validate(self, object, name, value):
+                return fn(value)
+        _owners[vm] = type("ListOwner_" + vm, (HasTraits,), {"l": List(Item() if fn else Any())})
+    return _owners[vm]
+
+
 INDEXED_OPS = ("setitem", "setslice", "delitem", "delslice", "imul", "insert", "pop")
 
 
-def execute(pre, op, a, xs, vm, idxrep=0):
-    """Run one operation on a real TraitList holding `pre`. Returns the record for the judge."""
+def execute(pre, op, a, xs, vm, idxrep=0, owner=0):
+    """Run one operation on a real TraitList holding `pre` (owner = 1: on the TraitListObject of a List trait, the
+    events being those its owner's l_items handler receives). Returns the record for the judge."""
     _IDX_REP[0] = idxrep
     try:
-        r = _execute(pre, op, a, xs, vm)
+        r = _execute(pre, op, a, xs, vm, owner)
     finally:
         _IDX_REP[0] = 0
     r["idxrep"] = idxrep
+    if owner:
+        r["owner"] = 1
     return r
 
 
-def _execute(pre, op, a, xs, vm):
+def _execute(pre, op, a, xs, vm, owner=0):
     TraitList, TraitError = _mods()
     events = []
+    if owner:
+        return _execute_owner(pre, op, a, xs, vm, events)
 
     def rec(tl, index, removed, added):
         events.append(proj_ev(index, list(removed) if isinstance(removed, list) else removed,
                               list(added) if isinstance(added, list) else added))
-    val = _coerce_validator if vm == "coerce" else None
+    val = _validator(vm)
     exc = ""
     ret = None
     if op == "construct":
@@ -180,7 +219,7 @@ def _execute(pre, op, a, xs, vm):
             exc = type(e).__name__
             post = []
     else:
-        tl = TraitList(list(pre), item_validator=val, notifiers=[rec])
+        tl = TraitList([_raw(vm, x) for x in pre], item_validator=val, notifiers=[rec])
         try:
             ret, other = perform(tl, op, a, xs, vm, True)
             if other is not None:
@@ -196,12 +235,41 @@ def _execute(pre, op, a, xs, vm):
         except Exception as e:
             exc = type(e).__name__
             post = [proj_item(x) for x in tl]
+    return _finish(pre, op, a, xs, vm, post, exc, ret, events)
+
+
+def _execute_owner(pre, op, a, xs, vm, events):
+    from traits.trait_errors import TraitError
+
+    def handler(event):
+        events.append(proj_ev(event.index, list(event.removed) if isinstance(event.removed, list) else event.removed,
+                              list(event.added) if isinstance(event.added, list) else event.added))
+    o = _list_owner(vm)()
+    exc, ret = "", None
+    try:
+        if op == "construct":
+            o.on_trait_change(handler, "l_items")
+            o.l = [conc(vm, x) for x in xs]
+        else:
+            o.l = [_raw(vm, x) for x in pre]
+            o.on_trait_change(handler, "l_items")
+            ret, _ = perform(o.l, op, a, xs, vm, True)
+    except TraitError:
+        exc = "TraitError"
+    except Exception as e:
+        exc = type(e).__name__
+    post = [proj_item(x) for x in o.l]
+    return _finish(pre, op, a, xs, vm, post, exc, ret, events)
+
+
+def _finish(pre, op, a, xs, vm, post, exc, ret, events):
     # builtin list on the validated arguments (checks the specification's own list semantics)
     bl = list(pre)
     try:
-        vxs = [(_coerce_validator(conc(vm, x)) if vm == "coerce" else x) for x in xs]
         if op == "remove":
-            vxs = [conc(vm, x) for x in xs]
+            vxs = [conc(vm, x) for x in xs]           # (the argument of remove is not validated)
+        else:
+            vxs = [(_validator(vm)(conc(vm, x)) if _validator(vm) else x) for x in xs]
         if op == "construct":
             bl = list(vxs)
         elif op == "copy":
@@ -221,7 +289,12 @@ def case_fn(st, rep):
         return None
     if rep == 1 and last["op"] not in INDEXED_OPS:
         return None
-    r = execute(list(last["pre"]), last["op"], list(last["a"]), list(last["xs"]), last["vm"], idxrep=rep)
+    if rep == 2:
+        # the TraitListObject of a List trait (copies of it are C14's business); a third of the cases in the quick tier
+        if last["op"] == "copy" or (_OWNER_SAMPLE[0] > 1 and hash(repr(last)) % _OWNER_SAMPLE[0]):
+            return None
+    r = execute(list(last["pre"]), last["op"], list(last["a"]), list(last["xs"]), last["vm"], idxrep=rep if rep < 2 else 0,
+                owner=1 if rep == 2 else 0)
     fail = None
     exp_post = list(last["post"])
     why = []
@@ -238,6 +311,9 @@ def case_fn(st, rep):
     return {"fail": fail, "line": r, "sample": r}
 
 
+_OWNER_SAMPLE = [3]
+
+
 def history_lines(seed, ntraces, steps, maxlen=9):
     """Seeded multi-step histories on longer lists; every step is one record (pre/post are snapshots
     of the real object, so consecutive records chain)."""
@@ -247,9 +323,10 @@ def history_lines(seed, ntraces, steps, maxlen=9):
     ops = ["setitem", "setslice", "delitem", "delslice", "append", "extend", "iadd", "imul", "insert",
            "pop", "remove", "reverse", "sort", "clear", "copy"]
     for t in range(ntraces):
-        vm = rnd.choice(["id", "coerce"])
+        vm = rnd.choice(["id", "coerce", "once"])
         items = [1, 2, 3, 4] + ([11, 12, 99] if vm == "id" else [])
         cur = [rnd.choice(items) for _ in range(rnd.randint(0, 6))]
+        own = 1 if rnd.random() < 0.3 else 0
         for _ in range(steps):
             op = rnd.choice(ops)
             n = len(cur)
@@ -287,7 +364,7 @@ def history_lines(seed, ntraces, steps, maxlen=9):
                 a[0] = rnd.randint(0, 2)
             if len(cur) > maxlen and op in ("extend", "iadd", "imul", "append", "insert"):
                 op, a, xs = "delslice", [NONE, NONE, 2], []
-            r = execute(cur, op, a, xs, vm, idxrep=1 if rnd.random() < 0.2 else 0)
+            r = execute(cur, op, a, xs, vm, idxrep=1 if rnd.random() < 0.2 else 0, owner=own if op != "copy" else 0)
             r["tid"] = t
             out.append(r)
             if op != "copy":
@@ -307,7 +384,8 @@ def run(rep, tier, seed):
                           heap="4g" if tier == "quick" else "12g")
         rep.add_tlc("TraitListMC", res)
         trace = os.path.join(work, "trace.ndjson")
-        tot = cases.run_dump_cases(dump + ".dump", case_fn, out_ndjson=trace, reps=2)
+        _OWNER_SAMPLE[0] = 3 if tier == "quick" else 1
+        tot = cases.run_dump_cases(dump + ".dump", case_fn, out_ndjson=trace, reps=3)
         os.unlink(dump + ".dump")
         if tot["ncases"] == 0:
             raise MachineryError("no cases in dump")
@@ -329,7 +407,8 @@ def run(rep, tier, seed):
         rep.sample(hl[len(hl) // 2])
         n = tot["nlines"] + len(hl)
         judge.judge(rep, "Trace_TraitList", "Trace_TraitList", "Trace_TraitList.cfg", trace, n,
-                    sig_of=lambda rec, cl: "C05:judge:%s%s:%s" % (rec["op"], ":index-object" if rec.get("idxrep") else "",
+                    sig_of=lambda rec, cl: "C05:judge:%s%s%s:%s" % (rec["op"], ":index-object" if rec.get("idxrep") else "",
+                                                                     ":List-trait" if rec.get("owner") else "",
                                                                    "+".join(cl)),
                     heap="8g" if tier == "quick" else "24g")
         # the repository's own tests as a driver: every TraitList mutation they make, judged by the same specification
